@@ -14,7 +14,7 @@ import sys
 REPO = os.environ.get("CCT_REPO", "/repo")
 HERE = os.path.dirname(os.path.abspath(__file__))
 OUT = os.path.join(os.path.dirname(HERE), "coq", "theories", "Gen", "Source.v")
-MODULES = ["common"]
+MODULES = ["common", "signing"]      # later modules may call the functions and use the constants they import by name from earlier ones
 BUILTIN_CALLS = {"len", "sorted", "set", "int", "all"}
 TYPE_NAMES = {"dict", "list", "tuple", "str", "int", "float", "bool", "bytes", "set"}
 ISINSTANCE_CLASSES = {"str", "dict", "list", "timedelta", "bytes"}
@@ -34,6 +34,7 @@ def ustr(s):
 class Tr:
     def __init__(self, fnames, type_tuples=None, str_lists=None):
         self.str_lists = str_lists or {}       # module-level NAME = ["a", "b"]: lists/tuples of str constants
+        self.extra_builtins = set()            # names imported from the standard library that the interpreter knows (deepcopy)
         self.fnames = fnames          # functions of the module
         self.type_tuples = type_tuples or {}   # module-level NAME = (dict, list, ...): tuples/lists of builtin classes
         self.unsupported = []
@@ -86,7 +87,7 @@ class Tr:
                 if f.id in self.fnames:
                     self.calls.add(f.id)
                     return "(ECall %s %s)" % (cstring(f.id), self.exprs(e.args))
-                if f.id in BUILTIN_CALLS:
+                if f.id in BUILTIN_CALLS or f.id in self.extra_builtins:
                     return "(ECall %s %s)" % (cstring(f.id), self.exprs(e.args))
                 return self.bad_e("call of " + f.id)
             if isinstance(f, ast.Attribute):
@@ -98,6 +99,12 @@ class Tr:
                     return self.bad_e("call of %s.%s" % (f.value.id, f.attr))
                 return "(EMeth %s %s %s)" % (self.expr(f.value), cstring(f.attr), self.exprs(e.args))
             return self.bad_e("call of an expression")
+        if isinstance(e, ast.Compare) and len(e.ops) == 1 and isinstance(e.ops[0], ast.NotIn) and isinstance(e.left, ast.Call) \
+                and isinstance(e.left.func, ast.Name) and e.left.func.id == "type":
+            # type(x) not in NAME  =  not (type(x) in NAME)
+            pos = ast.Compare(left=e.left, ops=[ast.In()], comparators=e.comparators)
+            inner = self.expr(pos)
+            return "(ENot %s)" % inner
         if isinstance(e, ast.Compare):
             # type(x) in NAME, NAME a module-level tuple of builtin classes
             if (len(e.ops) == 1 and isinstance(e.ops[0], ast.In) and isinstance(e.left, ast.Call) and isinstance(e.left.func, ast.Name)
@@ -123,6 +130,10 @@ class Tr:
             return "(EList %s)" % self.exprs(e.elts)
         if isinstance(e, ast.Set):
             return "(ESet %s)" % self.exprs(e.elts)
+        if isinstance(e, ast.Dict):
+            if all(k is not None for k in e.keys):
+                return "(EDict [%s])" % "; ".join("(%s, %s)" % (self.expr(k), self.expr(v)) for k, v in zip(e.keys, e.values))
+            return self.bad_e("dict display with **")
         if isinstance(e, ast.ListComp):
             if len(e.generators) == 1 and not e.generators[0].ifs and not e.generators[0].is_async and isinstance(e.generators[0].target, ast.Name):
                 g = e.generators[0]
@@ -192,9 +203,18 @@ class Tr:
         return self.bad_s("statement " + type(s).__name__)
 
 
-def translate_module(mod):
+def translate_module(mod, earlier=None):
+    """earlier: {"funs": names, "type_tuples": {...}, "str_lists": {...}} of the modules translated before (visible here only when
+    imported by name with `from .<module> import NAME`)"""
+    earlier = earlier or {"funs": set(), "type_tuples": {}, "str_lists": {}}
     tree = ast.parse(open(os.path.join(REPO, "conda_content_trust", mod + ".py")).read())
     funs = {n.name: n for n in tree.body if isinstance(n, ast.FunctionDef)}
+    imported, std = set(), set()
+    for n in tree.body:
+        if isinstance(n, ast.ImportFrom) and n.level == 1 and n.module in MODULES:
+            imported |= {a.name for a in n.names if a.asname in (None, a.name)}
+        if isinstance(n, ast.ImportFrom) and n.level == 0 and n.module == "copy":
+            std |= {a.name for a in n.names if a.name == "deepcopy" and a.asname in (None, "deepcopy")}
     # module-level constants that are tuples/lists of builtin classes, assigned exactly once and never rebound anywhere in the module
     assigned = {}
     for n in ast.walk(tree):
@@ -231,14 +251,21 @@ def translate_module(mod):
     res = {}
     for name, fn in funs.items():
         a = fn.args
-        t = Tr(set(funs), type_tuples, str_lists)
+        for k, v in earlier["type_tuples"].items():
+            if k in imported and assigned.get(k, 0) == 0:
+                type_tuples.setdefault(k, v)
+        for k, v in earlier["str_lists"].items():
+            if k in imported and assigned.get(k, 0) == 0:
+                str_lists.setdefault(k, v)
+        t = Tr(set(funs) | (earlier["funs"] & imported), type_tuples, str_lists)
+        t.extra_builtins = set(std)
         if a.vararg or a.kwarg or a.kwonlyargs or a.defaults or a.posonlyargs or fn.decorator_list:
             t.unsupported.append("signature")
         params = [x.arg for x in a.args]
         t.locals = set(params)
         body = t.stmts(fn.body)
-        res[name] = {"params": params, "body": body, "unsupported": t.unsupported, "calls": sorted(t.calls), "line": fn.lineno}
-    return res
+        res[name] = {"params": params, "body": body, "unsupported": t.unsupported, "calls": sorted(t.calls), "line": fn.lineno, "mod": mod}
+    return res, {"funs": set(funs), "type_tuples": type_tuples, "str_lists": str_lists}
 
 
 def select(res):
@@ -274,24 +301,35 @@ def select(res):
 def generate():
     lines = ["(* GENERATED by harness/translate_src.py from /repo -- do not edit. *)",
              "From Coq Require Import String.", "From CCT Require Import Prelude PySrc.", "Open Scope N_scope.", "Open Scope string_scope.", ""]
-    for mod in MODULES:
-        res = translate_module(mod)
-        order, acyclic = select(res)
-        for n in order:
-            r = res[n]
-            lines.append("(* %s.py:%d *)" % (mod, r["line"]))
-            lines.append("Definition src_%s : fundef := {| fparams := [%s]; fbody :=\n  %s |}." % (n, "; ".join(cstring(p) for p in r["params"]), r["body"]))
-        lines.append("")
-        lines.append("(* callers first: every function calls only functions listed after it *)")
-        lines.append("Definition program : program := [%s]." % "; ".join("(%s, src_%s)" % (cstring(n), n) for n in order))
-        lines.append("Definition call_graph_acyclic : bool := %s." % ("true" if acyclic else "false"))
-        lines.append("(* not in the program, and why (first construct outside the subset, or a callee that is not in it) *)")
-        skipped = []
-        for n in sorted(res, key=lambda n: res[n]["line"]):
-            if n not in order:
-                why = res[n]["unsupported"][0] if res[n]["unsupported"] else "calls a function that is not in the program"
-                skipped.append("(%s, %s)" % (cstring(n), cstring(why)))
-        lines.append("Definition not_translated : list (string * string) := [%s]." % ";\n  ".join(skipped))
+    res, ctx_acc, clash = {}, {"funs": set(), "type_tuples": {}, "str_lists": {}}, []
+    for mi, mod in enumerate(MODULES):
+        r, c = translate_module(mod, ctx_acc)
+        for k, v in r.items():
+            v["line"] += 100000 * mi
+            if k in res:
+                clash.append(k)          # the same function name in two modules: neither is translated
+                res[k]["unsupported"].append("name defined in two modules")
+            else:
+                res[k] = v
+        ctx_acc["funs"] |= c["funs"]
+        ctx_acc["type_tuples"].update(c["type_tuples"])
+        ctx_acc["str_lists"].update(c["str_lists"])
+    order, acyclic = select(res)
+    for n in order:
+        r = res[n]
+        lines.append("(* %s.py:%d *)" % (r["mod"], r["line"] % 100000))
+        lines.append("Definition src_%s : fundef := {| fparams := [%s]; fbody :=\n  %s |}." % (n, "; ".join(cstring(p) for p in r["params"]), r["body"]))
+    lines.append("")
+    lines.append("(* callers first: every function calls only functions listed after it *)")
+    lines.append("Definition program : program := [%s]." % "; ".join("(%s, src_%s)" % (cstring(n), n) for n in order))
+    lines.append("Definition call_graph_acyclic : bool := %s." % ("true" if acyclic else "false"))
+    lines.append("(* not in the program, and why (first construct outside the subset, or a callee that is not in it) *)")
+    skipped = []
+    for n in sorted(res, key=lambda n: res[n]["line"]):
+        if n not in order:
+            why = res[n]["unsupported"][0] if res[n]["unsupported"] else "calls a function that is not in the program"
+            skipped.append("(%s, %s)" % (cstring(n), cstring(why)))
+    lines.append("Definition not_translated : list (string * string) := [%s]." % ";\n  ".join(skipped))
     return "\n".join(lines) + "\n"
 
 
